@@ -492,10 +492,35 @@ example : (∀ c ∈ ([.rel (.add (.var 0) (.var 1)) (.const 2) false, .allDiff 
   · exact ⟨⟨by show (0 : Nat) < 2; omega, by show (1 : Nat) < 2; omega⟩, trivial⟩
   · intro v hv; simp at hv; omega
 
-/-- **choose_solver_total**: a model is routed to the SAT encoder exactly when it contains a
-SAT-only kind (sum_*, circuit, no_overlap, cumulative). -/
-theorem choose_solver_total (M : Model) : chooseSat M = true ↔ ∃ c ∈ M.cons, c.satRequired = true := by
-  simp [chooseSat]
+/-- **choose_solver_total**: with solver='auto' a model goes to the SAT encoder exactly when it
+contains a SAT-only kind (sum_*, circuit, no_overlap, cumulative) or a linear equality that still has
+three or more variables after merging coefficients; in particular every model with a SAT-only kind
+is routed to SAT, under 'auto' and (fallback of `_solve_dfs`) under 'dfs'. -/
+theorem choose_solver_total (M : Model) :
+    (chooseSat M = true ↔ ∃ c ∈ M.cons, c.satRequired = true ∨
+      ∃ l r, c = .rel l r false ∧ 3 ≤ (linDiff l r).1.length) ∧
+    (dfsFallback M = true ↔ ∃ c ∈ M.cons, c.satRequired = true) ∧
+    (dfsFallback M = true → chooseSat M = true) := by
+  have hlin : ∀ c : Con, c.linEq3 = true ↔ ∃ l r, c = .rel l r false ∧ 3 ≤ (linDiff l r).1.length := by
+    intro c
+    cases c with
+    | rel l r isNe =>
+      cases isNe
+      · simp [Con.linEq3]
+      · simp [Con.linEq3]
+    | _ => simp [Con.linEq3]
+  refine ⟨?_, by simp [dfsFallback], ?_⟩
+  · simp only [chooseSat, List.any_eq_true, Bool.or_eq_true, hlin]
+  · simp only [chooseSat, dfsFallback, List.any_eq_true, Bool.or_eq_true]
+    rintro ⟨c, hc, h⟩; exact ⟨c, hc, Or.inl h⟩
+
+-- x0 + x1 + x2 == 3 is routed to SAT, x0 + x1 == 3 and x0 + x1 + x2 != 3 are not,
+-- x0 + x1 - x0 == x2 merges to two variables and stays with DFS
+example : chooseSat ⟨[⟨0, 3⟩, ⟨0, 3⟩, ⟨0, 3⟩], [.rel (.add (.add (.var 0) (.var 1)) (.var 2)) (.const 3) false]⟩ = true ∧
+    chooseSat ⟨[⟨0, 3⟩, ⟨0, 3⟩], [.rel (.add (.var 0) (.var 1)) (.const 3) false]⟩ = false ∧
+    chooseSat ⟨[⟨0, 3⟩, ⟨0, 3⟩, ⟨0, 3⟩], [.rel (.add (.add (.var 0) (.var 1)) (.var 2)) (.const 3) true]⟩ = false ∧
+    chooseSat ⟨[⟨0, 3⟩, ⟨0, 3⟩, ⟨0, 3⟩], [.rel (.sub (.add (.var 0) (.var 1)) (.var 0)) (.var 2) false]⟩ = false := by
+  decide
 
 example : chooseSat ⟨[⟨0, 1⟩], [.neConst 0 0, .sumLe [0] 1]⟩ = true := by decide
 
